@@ -78,6 +78,24 @@ func init() {
 			return err == nil, fmt.Sprint(err)
 		})
 	}
+	probes["O91"] = func() (bool, string) {
+		return guard(func() (bool, string) {
+			s := &probeSBSub{}
+			s.Items = s.buf[:1] // items.0.n = 0 breaks min=1
+			to := struct{ Sub *probeSBSub }{Sub: s}
+			err := ucfg.New().Unpack(&to)
+			return err == nil, fmt.Sprint(err)
+		})
+	}
+	probes["O90"] = func() (bool, string) {
+		return guard(func() (bool, string) {
+			to := struct {
+				M map[string]int `config:",inline" validate:"nonzero"`
+			}{M: map[string]int{}}
+			err := ucfg.New().Unpack(&to)
+			return err == nil, fmt.Sprint(err)
+		})
+	}
 	probes["O89"] = func() (bool, string) {
 		return guard(func() (bool, string) {
 			empty := ""
@@ -1174,4 +1192,14 @@ func probeBounded(f func()) func() (bool, string) {
 			return false, "returned"
 		})
 	}
+}
+
+// probeSBSub: a slice field backed by an unexported array that is the first field of its struct (O91).
+type probeSBInner struct {
+	N int `validate:"min=1"`
+}
+
+type probeSBSub struct {
+	buf   [2]probeSBInner
+	Items []probeSBInner
 }
